@@ -113,7 +113,7 @@ func (p Poisson) Rand() float64 {
 		if us >= 0.07 && V <= vr {
 			return k
 		}
-		if k <= 0 || (us < 0.013 && V > us) {
+		if k < 0 || (us < 0.013 && V > us) {
 			continue
 		}
 		lg, _ := math.Lgamma(k + 1)
